@@ -65,10 +65,16 @@ def gen_cases(tier, seed):
             if org is not None and org + L > 65536:
                 continue
             yield {"id": "size/%d/%s" % (L, org), "lines": lines, "nam": "SZ%d" % L, "cli_name": None, "outs": ["bin", "cas", "dsk"], "sub": False}
+    # all of memory: 65536 bytes from $0000 (a Disk BASIC machine-language header cannot state that length: the disk file may be refused)
+    yield {"id": "size/65536/0", "lines": [" NAM FULL\n", " ORG $0\n", " RMB 65535\n", " NOP\n"], "nam": "FULL", "cli_name": None, "outs": ["bin", "cas", "dsk"], "sub": False}
 
 
 def run_case(case, ctx):
     d = tempfile.mkdtemp(prefix="p-", dir=ctx.tmp)
+    return _run(case, ctx, d)
+
+
+def _run(case, ctx, d):
     try:
         open(os.path.join(d, "p.asm"), "w").write("".join(case["lines"]))
         lines = open(os.path.join(d, "p.asm")).readlines()
@@ -126,6 +132,9 @@ def run_case(case, ctx):
                     bad = True
                 else:
                     ctx.cell("no-name-no-file/" + k)
+                continue
+            if not exists and k == "dsk" and len(image) == 65536 and "nable to save" in out:
+                ctx.cell("dsk-refused/65536-bytes")
                 continue
             if not exists:
                 # a 65535-byte program needs 29 granules: fits. nothing legitimately prevents creation on a fresh path
